@@ -31,6 +31,7 @@ fn main() {
     let gen: fn(&mut rng::Rng) -> String;
     match driver {
         "bw_zoom" => { run = bw::run_zoom; gen = bw::gen_zoom; }
+        "merge" => { run = bw::run_merge; gen = bw::gen_merge; }
         "zoom_dir" => { run = bw::run_zoom_dir; gen = bw::gen_zoom_dir; }
         "bw_roundtrip" => { run = bw::run_roundtrip; gen = bw::gen_roundtrip; }
         "bb_query" => { run = bb::run_query; gen = bb::gen_query; }
